@@ -22,9 +22,9 @@
         are zeros, they are all the zeros with multiplicity, and the `q == 0` branch is taken only
         for `b = c = 0` (sign rule: no cancellation in `b + sgn·s`);
       * `cubic_roots`, `cubic_factor`: likewise for `cubicSolve`, both branches; `cBase_ne_zero`
-        shows that the sign rule `if d1 < 0 {d1 - sq} else {d1 + sq}` (lexicographic `<`) together
-        with the principal branch of `sqrt` makes `base ≠ 0` outside the triple-root branch, so
-        the division `d0 / k` is never a division by zero there.
+        shows that the sign rule `if Re(conj d1 · sq) < 0 {d1 - sq} else {d1 + sq}` (no
+        cancellation: `|d1 ± sq|² = |d1|² + |sq|² ± 2 Re(conj d1 · sq)`) makes `base ≠ 0` outside
+        the triple-root branch, so the division `d0 / k` is never a division by zero there.
   NOT proved: convergence / accuracy of Laguerre + deflation (degree ≥ 4), anything about rounding
   (class F).  In `f64` the closed forms are of course only approximately zeros.
 -/
@@ -346,7 +346,8 @@ noncomputable def cDis (a b c d : Cx ℝ) : Cx ℝ :=
 noncomputable def cSq (a b c d : Cx ℝ) : Cx ℝ :=
   csqrt (mulR a (-(Transc.ofNat 27 : ℝ)) * a * cDis a b c d)
 noncomputable def cBase (a b c d : Cx ℝ) : Cx ℝ :=
-  divRT (if Cx.lt (cD1 a b c d) 0 then cD1 a b c d - cSq a b c d else cD1 a b c d + cSq a b c d)
+  divRT (if ScalarExt.lt (conj (cD1 a b c d) * cSq a b c d).re 0 then cD1 a b c d - cSq a b c d
+    else cD1 a b c d + cSq a b c d)
     (Transc.ofNat 2)
 noncomputable def cK (a b c d : Cx ℝ) : Cx ℝ :=
   cpow (cBase a b c d) ⟨Transc.ofNat 1 / Transc.ofNat 3, 0⟩
@@ -378,16 +379,29 @@ theorem cSq_sq (a b c d : Cx ℝ) :
   show toC a * (((-((27 : ℕ) : ℝ) : ℝ)) : ℂ) * toC a * _ = _
   push_cast; ring
 
+/-- `base = (d₁ + σ·sq)/2` with the sign `σ = ±1` for which `σ · Re (conj d₁ · sq) ≥ 0` -/
 theorem toC_cBase (a b c d : Cx ℝ) :
-    ∃ σ : ℂ, (σ = 1 ∨ σ = -1) ∧
-      toC (cBase a b c d) = (toC (cD1 a b c d) + σ * toC (cSq a b c d)) / 2 := by
+    ∃ σ : ℝ, (σ = 1 ∨ σ = -1) ∧
+      0 ≤ σ * (toC (cSq a b c d) * (starRingEnd ℂ) (toC (cD1 a b c d))).re ∧
+      toC (cBase a b c d) = (toC (cD1 a b c d) + (σ : ℂ) * toC (cSq a b c d)) / 2 := by
+  have hre : (toC (cSq a b c d) * (starRingEnd ℂ) (toC (cD1 a b c d))).re =
+      (conj (cD1 a b c d) * cSq a b c d).re := by
+    rw [← toC_re, toC_mul]
+    simp [toC, conj, Complex.mul_re]; ring
+  rw [hre]
   unfold cBase
   split
-  · refine ⟨-1, Or.inr rfl, ?_⟩
+  · rename_i hlt
+    have hlt' : (conj (cD1 a b c d) * cSq a b c d).re < 0 :=
+      of_decide_eq_true (show decide ((conj (cD1 a b c d) * cSq a b c d).re < 0) = true from hlt)
+    refine ⟨-1, Or.inr rfl, by linarith, ?_⟩
     rw [toC_divRT, toC_sub]
     show _ / (((2 : ℕ) : ℝ) : ℂ) = _
     push_cast; ring
-  · refine ⟨1, Or.inl rfl, ?_⟩
+  · rename_i hlt
+    have hlt' : ¬ (conj (cD1 a b c d) * cSq a b c d).re < 0 := fun h =>
+      hlt (show decide ((conj (cD1 a b c d) * cSq a b c d).re < 0) = true from decide_eq_true h)
+    refine ⟨1, Or.inl rfl, by linarith, ?_⟩
     rw [toC_divRT, toC_add]
     show _ / (((2 : ℕ) : ℝ) : ℂ) = _
     push_cast; ring
@@ -395,70 +409,24 @@ theorem toC_cBase (a b c d : Cx ℝ) :
 /-- `base` solves the resolvent quadratic `z² − d₁ z + d₀³ = 0` -/
 theorem cBase_resolvent (a b c d : Cx ℝ) :
     toC (cBase a b c d) ^ 2 - toC (cD1 a b c d) * toC (cBase a b c d) + toC (cD0 a b c) ^ 3 = 0 := by
-  obtain ⟨σ, hσ, hb⟩ := toC_cBase a b c d
-  have hσ2 : σ * σ = 1 := by rcases hσ with h | h <;> simp [h]
+  obtain ⟨σ, hσ, _, hb⟩ := toC_cBase a b c d
+  have hσ2 : (σ : ℂ) * σ = 1 := by rcases hσ with h | h <;> simp [h]
   rw [hb]
   linear_combination (1 / 4 : ℂ) * cSq_sq a b c d + (toC (cSq a b c d) ^ 2 / 4) * hσ2
 
-/-- the sign in `base = (d₁ ± sq)/2` is chosen so that the two terms do not cancel:
-    outside the triple-root branch `base ≠ 0` -/
+/-- the sign in `base = (d₁ ± sq)/2` is the one without cancellation
+    (`|d₁ + σ sq|² = |d₁|² + |sq|² + 2 |Re (conj d₁ · sq)|`): `base = 0` forces `d₁ = sq = 0`, hence
+    `d₀³ = 0`; so outside the triple-root branch `base ≠ 0` -/
 theorem cBase_ne_zero (a b c d : Cx ℝ) (h : ¬ (toC (cD0 a b c) = 0 ∧ toC (cD1 a b c d) = 0)) :
     toC (cBase a b c d) ≠ 0 := by
   intro hb
-  have hre := csqrt_re_nonneg (mulR a (-(Transc.ofNat 27 : ℝ)) * a * cDis a b c d)
-  have him := csqrt_im_nonneg_of_re_eq_zero (mulR a (-(Transc.ofNat 27 : ℝ)) * a * cDis a b c d)
+  obtain ⟨σ, hσ, hsign, hbase⟩ := toC_cBase a b c d
+  obtain ⟨hd1, hs⟩ := quad_q_zero (Q := -toC (cBase a b c d)) hσ hsign
+    (by rw [hbase]; ring) (by rw [hb]; simp)
   have hsq := cSq_sq a b c d
-  unfold cBase at hb
-  rw [toC_divRT] at hb
-  have hb' : ∀ z : Cx ℝ, toC z / ((Transc.ofNat 2 : ℝ) : ℂ) = 0 → z.re = 0 ∧ z.im = 0 := by
-    intro z hz
-    have h2 : ((Transc.ofNat 2 : ℝ) : ℂ) ≠ 0 := by
-      show (((2 : ℕ) : ℝ) : ℂ) ≠ 0
-      norm_num
-    have : toC z = 0 := by simpa [h2] using hz
-    exact ⟨congrArg Complex.re this, congrArg Complex.im this⟩
-  change 0 ≤ (cSq a b c d).re at hre
-  change (cSq a b c d).re = 0 → 0 ≤ (cSq a b c d).im at him
-  split at hb
-  · rename_i hlt
-    obtain ⟨h1, h2⟩ := hb' _ hb
-    change (cD1 a b c d).re - (cSq a b c d).re = 0 at h1
-    change (cD1 a b c d).im - (cSq a b c d).im = 0 at h2
-    have hlt' : (if (cD1 a b c d).re != 0 then decide ((cD1 a b c d).re < 0)
-        else decide ((cD1 a b c d).im < 0)) = true := hlt
-    split at hlt'
-    · have := of_decide_eq_true hlt'; linarith
-    · rename_i hne
-      have h0 : (cD1 a b c d).re = 0 := by simpa using hne
-      have := of_decide_eq_true hlt'
-      have := him (by linarith)
-      linarith
-  · rename_i hlt
-    obtain ⟨h1, h2⟩ := hb' _ hb
-    change (cD1 a b c d).re + (cSq a b c d).re = 0 at h1
-    change (cD1 a b c d).im + (cSq a b c d).im = 0 at h2
-    have hlt' : ¬ (if (cD1 a b c d).re != 0 then decide ((cD1 a b c d).re < 0)
-        else decide ((cD1 a b c d).im < 0)) = true := hlt
-    have hd1 : (cD1 a b c d).re = 0 ∧ (cD1 a b c d).im = 0 := by
-      split at hlt'
-      · rename_i hne
-        have hne' : (cD1 a b c d).re ≠ 0 := by simpa using hne
-        have : ¬ (cD1 a b c d).re < 0 := fun h => hlt' (decide_eq_true h)
-        exfalso
-        rcases lt_or_gt_of_ne hne' with h | h
-        · exact this h
-        · linarith
-      · rename_i hne
-        have h0 : (cD1 a b c d).re = 0 := by simpa using hne
-        have : ¬ (cD1 a b c d).im < 0 := fun h => hlt' (decide_eq_true h)
-        have := him (by linarith)
-        exact ⟨h0, by linarith⟩
-    have hs0 : toC (cSq a b c d) = 0 := Complex.ext (by show (cSq a b c d).re = 0; linarith [hd1.1])
-      (by show (cSq a b c d).im = 0; linarith [hd1.2])
-    have hd10 : toC (cD1 a b c d) = 0 := Complex.ext hd1.1 hd1.2
-    rw [hs0, hd10] at hsq
-    have : toC (cD0 a b c) ^ 3 = 0 := by linear_combination (1 / 4 : ℂ) * hsq
-    exact h ⟨pow_eq_zero_iff (by norm_num) |>.mp this, hd10⟩
+  rw [hs, hd1] at hsq
+  have : toC (cD0 a b c) ^ 3 = 0 := by linear_combination (1 / 4 : ℂ) * hsq
+  exact h ⟨pow_eq_zero_iff (by norm_num) |>.mp this, hd1⟩
 
 /-- the principal cube root: `k³ = base`, `k ≠ 0` -/
 theorem cK_cube (a b c d : Cx ℝ) (h : toC (cBase a b c d) ≠ 0) :
